@@ -35,6 +35,10 @@ Lemma src_bc_check_message_length_eq m maxl len :
   Ok (if len >? maxl then RErr "BroadcastTransmitError::EncodedMessageExceedsMaxMsgLength" [len; maxl] else ROk 0).
 Proof. unfold src_bc_check_message_length. src_robust. Qed.
 
+Lemma src_bc_check_capacity_eq m cap b : GenSrcBits.src_is_power_of_two m cap = Ok b ->
+  src_bc_check_capacity m cap = Ok (if b then ROk 0 else RErr "BroadcastTransmitError::NotPowerOfTwo" [cap]).
+Proof. intros E. unfold src_bc_check_capacity. rewrite E. cbn [bind]. destruct b; reflexivity. Qed.
+
 (* bit_utils::align with the record alignment is the align32 of the model *)
 Lemma src_align_RA m v : src_align m v GenConsts.BC_RECORD_ALIGNMENT = align32 m v RA.
 Proof. unfold src_align, align32. bauto. Qed.
